@@ -49,7 +49,8 @@ def bounds(tier):
     for cls, _f, _s in dcl:
         classes[cls] = classes.get(cls, 0) + 1
     return {"statement_templates": len(fprog.ORDER),
-            "core_templates": len(fprog._flag("c")),
+            "core_templates": len(fprog._flag("c")) - (
+                len(fprog.QUICK_CORE_DROPPED) if tier == "quick" else 0),
             "mini_core": len(fprog._flag("k")),
             "declaration_features": len(fprog.DECL_ORDER),
             "snippets": len(fprog.DECL_SNIPPETS),
